@@ -72,6 +72,9 @@ const (
 	// shadow memory needs the address space: no rlimit, a higher backstop; no
 	// warm-up, allocation is not looked at in this mode).
 	envWorkerRace = "C06_WORKER_RACE"
+	// envWorkerNoWarm: serve without warming up (the parent sends the warm-up
+	// layer as a job, because a worker died while warming up).
+	envWorkerNoWarm = "C06_WORKER_NOWARM"
 
 	// workerASLimit is the hard address-space limit of a worker: an absurd
 	// allocation becomes a crash of the worker instead of hurting the machine.
@@ -733,8 +736,22 @@ func workerMain() {
 	copy(ids[len(w.scanners):], pseudoCalls)
 	// Warm-up: one well-formed layer holding a file for every scanner, twice,
 	// so that lazily built tables are not charged to the first layer served.
-	if !raceMode {
-		warm := warmupLayer()
+	warm := warmupLayer()
+	if os.Getenv(envWorkerNoWarm) == "1" {
+		// nothing
+	} else if raceMode {
+		// One sequential pass only: libraries initialise themselves on first
+		// use (modernc.org/sqlite's sqlite3MutexInit copies a method table
+		// without synchronisation, tolerated by SQLite's design and reported by
+		// the detector when two scanners open their first database at the same
+		// moment). The concurrent calls are served to the parent, which holds
+		// the layer.
+		seq := make([]int, len(w.scanners))
+		for i := range seq {
+			seq[i] = i
+		}
+		w.layer(warm, seq, false)
+	} else {
 		w.layer(warm, all, false)
 		w.layer(warm, all, false)
 	}
